@@ -211,3 +211,40 @@ def q_rtss(rng, which=None, scalar_only=False):
 
 def q_ros(rng):
     return q_ecrts(rng) if rng.random() < 0.55 else q_rtss(rng)
+
+
+# ----------------------------------------------------------------------------- small dense task sets: long busy windows, many offsets
+def gen_dense_system(rng):
+    """2-4 sporadic/periodic tasks with small periods and a total utilisation of 0.6..0.98: the busy window spans
+    many releases, so the per-offset search space (shifted EDF steps, jittered steps) really matters"""
+    n = rng.randint(2, 4)
+    ts = []
+    target = rng.choice([0.6, 0.75, 0.85, 0.92, 0.98])
+    for _ in range(n):
+        T = rng.randint(3, 24)
+        C = max(1, int(T * target / n * rng.uniform(0.6, 1.4)))
+        J = rng.choice([0, 0, rng.randint(0, T - 1), rng.randint(T, 2 * T)])
+        ab = ["periodic", T] if (J == 0 and rng.random() < 0.4) else ["sporadic", T, J]
+        ts.append(["rbf", ab, ["scalar", C]])
+    return ts
+
+def q_dense(rng, which=None):
+    ts = gen_dense_system(rng)
+    tua, others = ts[0], ts[1:]
+    C = tua[2][1]; T = tua[1][1]
+    limit = rng.choice([rng.randint(5, 60), rng.randint(40, 400)])
+    which = which or rng.choice(["fp_fp", "fp_np", "fp_lp", "fp_fnp", "edf_fp", "edf_np", "edf_lp", "edf_fnp", "edf_fp", "edf_np", "edf_lp", "edf_fnp", "fifo"])
+    B = rng.choice([0, rng.randint(0, 5)])
+    if which == "fp_fp": return [["fp_fp", tua, others, limit]]
+    if which == "fp_np": return [["fp_np", tua[1], C, B, others, limit]]
+    if which == "fp_lp": return [["fp_lp", tua[1], C, rng.randint(1, C), B, others, limit]]
+    if which == "fp_fnp": return [["fp_fnp", tua, B, others, limit]]
+    if which == "fifo": return [["fifo", ["agg", ts], limit]]
+    dl = lambda rb: rng.choice([rng.randint(rb[2][1], max(rb[2][1], rb[1][1])), rng.randint(rb[2][1], 2 * rb[1][1] + 2)])
+    D = dl(tua); od = [dl(o) for o in others]
+    if rng.random() < 0.2: od = [D for _ in others]
+    segs = [rng.choice([1, o[2][1], rng.randint(1, o[2][1])]) for o in others]
+    if which == "edf_fp": return [["edf_fp", [tua, D], [[o, d] for o, d in zip(others, od)], limit]]
+    if which == "edf_np": return [["edf_np", [tua[1], C, D], [[o[1], o[2][1], d] for o, d in zip(others, od)], limit]]
+    if which == "edf_lp": return [["edf_lp", [tua[1], C, D, rng.randint(1, C)], [[o, d, s] for o, d, s in zip(others, od, segs)], limit]]
+    return [["edf_fnp", [tua, D], [[o, d, s] for o, d, s in zip(others, od, segs)], limit]]
